@@ -427,6 +427,35 @@ theorem splitOn_single (sep : Nat) (e : Str) (h : sep ∉ e) : splitOn sep e = [
     have ht : sep ∉ t := fun e => h (List.mem_cons_of_mem _ e)
     simp [splitOn, hy, ih ht]
 
+/-- Splitting a header written from a (non-empty) list of comma-free elements gives the list back — every element,
+    however many there are. -/
+theorem splitOn_joinComma (es : List Str) (hne : es ≠ []) (h : ∀ e ∈ es, 44 ∉ e) :
+    splitOn 44 (joinComma es) = es := by
+  induction es with
+  | nil => exact absurd rfl hne
+  | cons e t ih =>
+    cases t with
+    | nil => simpa [joinComma] using splitOn_single 44 e (h e (by simp))
+    | cons e' t' =>
+      have he : 44 ∉ e := h e (by simp)
+      have ih' := ih (by simp) (fun x hx => h x (List.mem_cons_of_mem _ hx))
+      simp only [joinComma]
+      rw [splitOn_append 44 e _ he, ih']
+
+theorem joinComma_ne_nil (pre post : List Str) (e : Str) (he : e ≠ []) : joinComma (pre ++ e :: post) ≠ [] := by
+  cases pre with
+  | nil =>
+    cases post with
+    | nil => simpa [joinComma] using he
+    | cons p ps => simp [joinComma, he]
+  | cons x t =>
+    cases ht : t ++ e :: post with
+    | nil => simp at ht
+    | cons y ys =>
+      have : (x :: t) ++ e :: post = x :: y :: ys := by simp [ht]
+      rw [this]
+      simp [joinComma]
+
 /-- What `dumpWithoutIdentifier` writes for a format that has a mime type, `LoadAsFormat` reads back. -/
 theorem loadAsFormat_dumpWithoutIdentifier {V : Type} (cfg : Cfg) (c : Codec V) (hc : c.Sound) (v : V) (f : Nat) (mime : Str)
     (hm : lookup f formatToMimeType = some mime) (data : Bytes) (hd : dumpWithoutIdentifier cfg c v f [] = .ok data) :
